@@ -258,19 +258,24 @@ def run(prog, rep):
     wc = [f for f in prog.fns.values() if f.name == "with_context" and f.trait == "tsg::execution::error::ResultWithExecutionError"]
     okf = False
     if len(wc) == 1:
-        for c in prog.closures_of(wc[0]):
+        from ..lib.cfgq import reach_const_aware
+        for c in [wc[0]] + prog.closures_of(wc[0]):
             body, tr = c.body, Tracer(c.body)
             arms = {}
             for b in sorted(body.reachable()):
-                for g in switch_edges(body, tr, b):
+                es = switch_edges(body, tr, b)
+                for g in es:
                     if g.variant in ("Cancelled", "InContext", "Other", "Statement") or (g.variant is None and g.value is None):
-                        region = body.reach_from([g.dst], avoid={x.dst for x in switch_edges(body, tr, b) if x.dst != g.dst})
+                        # what the arm does, following a classification that is first stored in a bool
+                        region = reach_const_aware(body, g.dst)
                         wraps = any(st["k"] == "assign" and st["rv"]["k"] == "aggregate" and st["rv"].get("variant") == "InContext" for x in region for st in body.blocks[x]["stmts"])
                         arms.setdefault(g.variant or "otherwise", []).append(wraps)
-            okf = arms.get("Cancelled") == [False] and any(arms.get("Other", [])) and any(arms.get("otherwise", []))
+            if "Cancelled" not in arms:
+                continue
+            okf = arms.get("Cancelled") == [False] and any(arms.get("Other", [])) and any(arms.get("otherwise", [])) and not any(arms.get("Statement", []))
             rep.check(okf, "E2.x-f", "with_context :: arms", c.loc(), "Cancelled passes, Other-context and plain errors are wrapped, statement contexts are kept", "with_context arms: %s" % arms)
-    if not okf and len(wc) != 1:
-        rep.violation("E2.x-f", "anchor-lost:with_context", "", "not found")
+    if not okf:
+        rep.violation("E2.x-f", "anchor-lost:with_context", "", "the dispatch of with_context on the error variant was not found")
     # ---- (g) pretty rendering
     rep.rule("E2.x-g", "pretty rendering excerpts the DSL at the statement location, the DSL at the stanza location and the source at the node location")
     fp = [f for f in prog.fns.values() if f.name == "fmt_pretty" and f.self_path == "tsg::execution::error::StatementContext"]
